@@ -162,3 +162,370 @@ class Capture:
     def __exit__(self, *a):
         self.mod.pack_into_passes = self.orig
         return False
+
+
+# ------------------------------------------------------------------------------------------------
+# generated graphs (real Operation / Tensor / Subgraph objects)
+
+SHAPE = [1, 4, 4, 8]
+SHAPE2 = [1, 8, 2, 8]      # same number of elements, another operator shape
+
+
+class GB:
+    """builds one subgraph out of the repo's own classes"""
+
+    def __init__(self):
+        from ethosu.vela.nn_graph import Graph, Subgraph
+
+        self.nng, self.sg = Graph(), Subgraph()
+        self.nng.subgraphs.append(self.sg)
+        self.ops = []
+        self.fms = []
+        self.n = 0
+
+    def fresh(self, p):
+        self.n += 1
+        return f"{p}{self.n}"
+
+    def fm(self, shape=None):
+        from ethosu.vela.data_type import DataType
+        from ethosu.vela.tensor import Tensor, TensorPurpose
+
+        t = Tensor(list(shape or SHAPE), DataType.int8, self.fresh("t"))
+        t.purpose = TensorPurpose.FeatureMap
+        return t
+
+    def const(self, shape, purpose):
+        import numpy as np
+        from ethosu.vela.data_type import DataType
+        from ethosu.vela.tensor import create_const_tensor
+
+        return create_const_tensor(self.fresh("c"), list(shape), DataType.int8, np.zeros(shape, np.int8), purpose=purpose)
+
+    def op(self, kind, inputs, outputs=None, npu=True, act=None, shapes=True, orig=None, ro=(False, False), op_index=None):
+        """kind: Op; inputs: tensors (None allowed); returns the operation (outputs: default one fresh feature map)"""
+        from ethosu.vela.operation import ActivationFunction, Op, Operation
+        from ethosu.vela.shape4d import Shape4D
+        from ethosu.vela.tensor import TensorPurpose
+
+        o = Operation(kind, self.fresh(kind.name))
+        o.run_on_npu = npu
+        o.op_index = op_index
+        for t in inputs:
+            if t is None:
+                o.inputs.append(None)
+            else:
+                o.add_input_tensor(t)
+        outs = outputs if outputs is not None else [self.fm()]
+        for t in outs:
+            o.outputs.append(t)
+            if o not in t.ops:
+                t.ops.append(o)
+        if act is not None:
+            if act == Op.LUT:
+                o.set_activation_lut(self.const([256], TensorPurpose.LUT))
+            else:
+                o.activation = ActivationFunction(act)
+        if orig is not None:
+            o._original_type = orig
+        if shapes:
+            for t in (o.ifm, o.ifm2):
+                if t is not None:
+                    o.ifm_shapes.append(Shape4D(list(t.shape)[-4:] if len(t.shape) >= 1 else [1]))
+            if o.outputs:
+                o.ofm_shapes.append(Shape4D(list(o.outputs[0].shape)))
+        if ro[0]:
+            o.read_offsets[0] = Shape4D(0, 1, 0, 0)
+        if ro[1]:
+            o.read_offsets[1] = Shape4D(0, 0, 1, 0)
+        self.ops.append(o)
+        return o
+
+    def placeholder(self):
+        from ethosu.vela.operation import Op
+
+        o = self.op(Op.Placeholder, [], npu=False, shapes=False)
+        return o.outputs[0]
+
+    def finish(self, extra_outputs=()):
+        consumed = set()
+        for o in self.ops:
+            for t in o.inputs:
+                if t is not None:
+                    consumed.add(id(t))
+        outs = []
+        for o in self.ops:
+            for t in o.outputs:
+                if id(t) not in consumed and all(t is not u for u in outs):
+                    outs.append(t)
+        for t in extra_outputs:
+            if all(t is not u for u in outs):
+                outs.append(t)
+        self.sg.output_tensors = outs
+        self.nng.refresh_after_modification()
+        return self.nng
+
+
+def op_classes():
+    from ethosu.vela import pass_packing as pp
+    from ethosu.vela.operation import Op
+
+    def srt(s):
+        # operator types without IFM indices (Clip, activation-only types) make build_pass assert "IFM missing": kept, but rare
+        l = sorted(s, key=lambda o: o.name)
+        with_ifm = [o for o in l if o.info.indices.ifms]
+        return with_ifm * 12 + [o for o in l if not o.info.indices.ifms]
+
+    return {
+        "mac": [Op.Conv2DBias, Op.DepthwiseConv2DBias, Op.FullyConnected, Op.MaxPool, Op.AvgPool, Op.ReduceSum, Op.ResizeBilinear],
+        "binary": srt(pp.binary_elem_wise_main_ops),
+        "unary": srt(pp.unary_elem_wise_main_ops),
+        "post": srt(pp.npu_post_ops),
+        "limited": srt(pp.npu_post_fuse_limited_ops),
+        "memonly": srt(pp.memory_only_ops),
+        "memcpy": srt(pp.memcpy_ops),
+        "cpu": srt(pp.cpu_ops),
+        "other": [Op.Transpose, Op.StridedSlice, Op.ConcatTFLite, Op.Split, Op.Custom, Op.LUT, Op.HardSwish, Op.Mean, Op.Pack],
+    }
+
+
+def add_op(b, rng, cls, kind, srcs, **kw):
+    """one operator of class `cls` reading the feature maps `srcs` (one or two)"""
+    from ethosu.vela.operation import Op
+    from ethosu.vela.tensor import TensorPurpose
+
+    x = srcs[0]
+    if cls == "mac":
+        ins = [x]
+        if kind in (Op.Conv2DBias, Op.DepthwiseConv2DBias, Op.FullyConnected):
+            w = srcs[1] if (kind == Op.FullyConnected and len(srcs) > 1 and kw.pop("dynamic_weights", False)) else b.const([1, 1, 8, 8], TensorPurpose.Weights)
+            ins += [w, b.const([8], TensorPurpose.FeatureMap)]
+        kw.pop("dynamic_weights", None)
+        return b.op(kind, ins, **kw)
+    kw.pop("dynamic_weights", None)
+    if cls == "binary":
+        y = srcs[1] if len(srcs) > 1 else b.const([1, 1, 1, 8], TensorPurpose.FeatureMap)
+        return b.op(kind, [x, y], **kw)
+    if cls == "memonly" or kind in (Op.Transpose, Op.Pad, Op.Mean):
+        return b.op(kind, [x, b.const([4], TensorPurpose.FeatureMap)], **kw)
+    if kind == Op.ConcatTFLite or kind == Op.AddN or kind == Op.Pack:
+        return b.op(kind, list(srcs), **kw)
+    if kind == Op.Split:
+        return b.op(kind, [b.const([1], TensorPurpose.FeatureMap), x], outputs=[b.fm(), b.fm()], **kw)
+    return b.op(kind, [x], **kw)
+
+
+def gen_random_graph(rng):
+    """a random small graph: chains with fan-out, shared tensors, CPU / NPU placement, fused activations, slice reads,
+    operator-shape mismatches, operators with two outputs, tensors with two producers, None inputs"""
+    from ethosu.vela.operation import Op
+
+    cl = op_classes()
+    b = GB()
+    fms = [b.placeholder() for _ in range(rng.choice([1, 1, 2]))]
+    weights = [("mac", 5), ("binary", 4), ("unary", 2), ("post", 6), ("limited", 2), ("memonly", 1), ("memcpy", 1), ("cpu", 2), ("other", 1)]
+    names = [n for n, w in weights for _ in range(w)]
+    extra_out = []
+    idx = 0
+    for _ in range(rng.randint(1, 8)):
+        cls = rng.choice(names)
+        kind = rng.choice(cl[cls])
+        last = fms[-1]
+        x = last if rng.random() < 0.75 else rng.choice(fms)
+        srcs = [x]
+        if rng.random() < 0.6:
+            srcs.append(x if rng.random() < 0.25 else rng.choice(fms))
+        npu_capable = cls in ("mac", "binary", "unary", "post", "limited", "memcpy")
+        npu = (rng.random() < 0.85) if npu_capable else (rng.random() < 0.02)
+        act = None
+        if cls in ("mac", "binary", "unary") and rng.random() < 0.4:
+            act = rng.choice([Op.Relu, Op.Relu6, Op.ReluN1To1, Op.Clip, Op.LUT, Op.Tanh, Op.Sigmoid])
+        elif cls in ("post", "limited") and rng.random() < 0.05:
+            act = rng.choice([Op.Relu, Op.LUT])
+        orig = Op.Transpose if kind == Op.AvgPool and rng.random() < 0.3 else None
+        ro = (rng.random() < 0.1, cls == "binary" and rng.random() < 0.08)
+        idx += 1
+        o = add_op(b, rng, cls, kind, srcs, npu=npu, act=act, orig=orig, ro=ro, op_index=idx if rng.random() < 0.9 else None,
+                   shapes=rng.random() > 0.01, dynamic_weights=rng.random() < 0.3)
+        r = rng.random()
+        if r < 0.06 and o.ifm_shapes:
+            from ethosu.vela.shape4d import Shape4D
+
+            o.ifm_shapes[0] = Shape4D(SHAPE2)           # the consumer views its input in another shape (bypassed reshape)
+        elif r < 0.09 and o.ofm_shapes:
+            from ethosu.vela.shape4d import Shape4D
+
+            o.ofm_shapes[0] = Shape4D(SHAPE2)
+        elif r < 0.11 and len(o.inputs) > 1 and o.activation_lut is None:
+            # a None input (optional operand that is absent)
+            t = o.inputs[-1]
+            o.inputs[-1] = None
+            if o in t.consumer_list:
+                t.consumer_list.remove(o)
+        if rng.random() < 0.06 and cls in ("mac", "unary"):
+            # a second producer of the same tensor (the copies a CONCATENATION is rewritten to)
+            o2 = add_op(b, rng, cls, kind, [rng.choice(fms)], npu=npu, outputs=[o.outputs[0]])
+            o2.op_index = None
+        for t in o.outputs:
+            fms.append(t)
+        if rng.random() < 0.1:
+            extra_out.append(o.outputs[0])
+    return b.finish(extra_out)
+
+
+def gen_pair_cases():
+    """every class of producer x fused activation x consumer x multi-consumer x read offset x placement of both"""
+    from ethosu.vela.operation import Op
+
+    cl = op_classes()
+    producers = [("mac", Op.Conv2DBias), ("mac", Op.MaxPool), ("mac", Op.AvgPool), ("mac", Op.FullyConnected), ("binary", Op.Add),
+                 ("unary", Op.Abs), ("post", Op.Relu), ("limited", Op.Sigmoid), ("limited", Op.Quantize), ("memonly", Op.Reshape),
+                 ("memcpy", Op.Memcpy), ("cpu", Op.Softmax), ("other", Op.Transpose), ("other", Op.Split)]
+    consumers = [("post", Op.Relu), ("post", Op.Relu6), ("post", Op.Clip), ("limited", Op.Tanh), ("limited", Op.Quantize), ("memonly", Op.Reshape),
+                 ("binary", Op.Mul), ("mac", Op.Conv2DBias), ("unary", Op.LeakyRelu), ("memcpy", Op.Memcpy), ("cpu", Op.Pad), ("other", Op.Custom)]
+    acts = [None, Op.Relu6, Op.LUT, Op.Tanh]
+    for pc, pk in producers:
+        for act in acts:
+            for cc, ck in consumers:
+                for fan in ("one", "two", "output", "same_twice"):
+                    for ro in (False, True):
+                        for pnpu in (True, False):
+                            for cnpu in (True, False):
+                                for third in (None, Op.Relu, Op.Sigmoid):
+                                    if third is not None and (fan != "one" or ro or not pnpu or not cnpu):
+                                        continue
+                                    yield (pc, pk, act, cc, ck, fan, ro, pnpu, cnpu, third)
+
+
+def build_pair(case):
+    from ethosu.vela.operation import Op
+
+    pc, pk, act, cc, ck, fan, ro, pnpu, cnpu, third = case
+    b = GB()
+    x = b.placeholder()
+    p = add_op(b, None, pc, pk, [x], npu=pnpu, act=act, orig=Op.Transpose if (pk == Op.AvgPool and act == Op.Tanh) else None, op_index=1)
+    y = p.outputs[0]
+    srcs = [y, y] if fan == "same_twice" else [y]
+    c = add_op(b, None, cc, ck, srcs, npu=cnpu, ro=(ro, False), op_index=2)
+    extra = []
+    if fan == "two":
+        add_op(b, None, "post", Op.Relu, [y], npu=True, op_index=3)
+    elif fan == "output":
+        extra = [y]
+    if third is not None:
+        add_op(b, None, "post" if third == Op.Relu else "limited", third, [c.outputs[0]], npu=True, op_index=3)
+    return b.finish(extra)
+
+
+def run_real(nng):
+    """the REAL pack_into_passes on a generated graph -> list of cases (one per subgraph)"""
+    from ethosu.vela import pass_packing
+
+    snaps = [snapshot(sg) for sg in nng.subgraphs]
+    out = []
+    try:
+        pass_packing.pack_into_passes(nng, None)
+    except (AssertionError, IndexError, AttributeError, TypeError, NameError, UnboundLocalError, KeyError, ValueError) as e:
+        for sn in snaps:
+            out.append({"body": sn.body, "real": None, "raised": type(e).__name__ + ": " + str(e)[:100], "ops": sn.desc["ops"]})
+        return out
+    for sg, sn in zip(nng.subgraphs, snaps):
+        out.append({"body": sn.body, "real": real_passes(sg.passes, sn), "raised": None, "ops": sn.desc["ops"]})
+    return out
+
+
+# ------------------------------------------------------------------------------------------------
+# judgement (shared by the generated-graph stream and the compile corpus of check_C01.py)
+
+KEY_TWO_ACTIVATIONS = "relu-and-tanh-sigmoid-operators-in-one-pass-keep-only-the-last-activation"
+
+
+class Result:
+    def __init__(self):
+        self.evaluations = 0
+        self.nontrivial = set()
+
+
+def _fields(ans):
+    return dict(kv.split("=", 1) for kv in ans.split(" ") if "=" in kv)
+
+
+def judge(ck, cases, stream, res=None, malformed_ok=False):
+    """cases: dicts with `body` (graph), `real` (canonical real pass list or None when the real function raised), `raised`.
+    Lean computes the model's pass list and evaluates the Spec clauses on the REAL pass list."""
+    res = res or Result()
+    if not cases:
+        return res
+    model = ck.model(["packmodel " + c["body"] for c in cases])
+    with_list = [c for c in cases if c["real"] is not None]
+    spec = dict(zip((id(c) for c in with_list), ck.model(["packspec " + c["body"] + " passes=" + c["real"] for c in with_list])))
+    for c, m in zip(cases, model):
+        res.evaluations += 1
+        ck.count(f"packing_{stream}_cases")
+        where = f"{stream} {c.get('origin', '')} operators {c['ops']}"
+        rp = {"stream": "pass packing: " + stream, "origin": c.get("origin"), "request": "packmodel " + c["body"],
+              "operators": c["ops"], "model": m[:3000], "real": (c["real"] or c["raised"] or "")[:3000]}
+        if c["real"] is None:
+            # the real function raised: the model has to reject as well (what is raised is C13's subject, not C01's)
+            ck.count(f"packing_{stream}_real_raised")
+            ck.count("packing_real_raised:" + (c["raised"] or "?").split(":")[0])
+            if not m.startswith("err:"):
+                ck.violation(f"pass packing: the real pack_into_passes raised {c['raised']} on a graph the model packs ({where})",
+                             rp, found_input=False)
+            continue
+        sp = spec[id(c)]
+        f = _fields(sp)
+        rp["semantic_request"] = "packspec " + c["body"] + " passes=" + c["real"]
+        rp["lean_verdict"] = sp
+        wf = f.get("wf") == "1"
+        ck.count(f"packing_{stream}_wellformed_{int(wf)}")
+        npasses = c["real"].count(";") + 1
+        multi = sum(1 for p in c["real"].split(";") if "/" in p.split(",")[0] and p.split(",")[2] == "2")
+        if multi:
+            ck.count(f"packing_{stream}_graphs_with_fused_npu_pass")
+        if ",c," in c["real"]:
+            ck.count(f"packing_{stream}_graphs_with_created_avgpool")
+        res.nontrivial.add(hash(c["body"]))
+        bad_clauses = [k for k in ("a", "b", "c") if f.get(k) != "1"]
+        if sp.startswith("err"):
+            ck.violation(f"pass packing: the Spec request was not understood: {sp} ({where})", rp, found_input=False)
+            continue
+        if bad_clauses and (wf or not malformed_ok):
+            names = {"a": "an operator is in no pass or in two (partition)", "b": "a producer comes after its consumer (order)",
+                     "c": "pass shape / fused edge that somebody else reads (badshape=" + f.get("badshape", "") + ")"}
+            ck.violation("pass packing: the REAL pass list violates " + "; ".join(names[k] for k in bad_clauses) + f" ({where})", rp,
+                         found_input=True)
+            continue
+        if f.get("d") != "1":
+            ck.violation(f"pass packing: a pass holds a RELU-type operator together with a TANH / SIGMOID operator; the command generator "
+                         f"keeps one activation function (passes {f.get('badact')}; {where})", rp, found_input=True, key=KEY_TWO_ACTIVATIONS)
+        if m != "ok " + c["real"]:
+            ck.violation(f"pass packing: the model of pack_into_passes and the real function disagree, the Spec clauses hold on the real "
+                         f"pass list: model {m[:200]} real {c['real'][:200]} ({where})", rp, found_input=False)
+        if npasses > 1:
+            ck.count(f"packing_{stream}_passes", npasses)
+    return res
+
+
+def run(ck):
+    """the generated-graph stream"""
+    import random
+
+    res = Result()
+    cases = []
+    pairs = list(gen_pair_cases())
+    ck.count("packing_pair_cases_total", len(pairs))
+    if not ck.thorough:
+        r = random.Random(ck.seed * 7907 + 11)
+        pairs = r.sample(pairs, 4000)
+    for case in pairs:
+        for c in run_real(build_pair(case)):
+            c["origin"] = "pair " + " ".join(str(getattr(x, "name", x)) for x in case)
+            cases.append(c)
+    rng = random.Random(ck.seed * 104729 + 5)
+    for k in range(12000 if ck.thorough else 2500):
+        for c in run_real(gen_random_graph(rng)):
+            c["origin"] = f"random graph {k} of seed {ck.seed}"
+            cases.append(c)
+    judge(ck, cases, "generated", res, malformed_ok=True)
+    return res
